@@ -110,25 +110,26 @@ type Msg struct {
 }
 
 type Del struct {
-	Sub            *Sub
-	Msg            *Msg
-	AckID          string
-	State          DelState
-	Attempts       int
-	Lease          Iv // attempt_at lies in here
-	Exp            Iv // expires_at lies in here
-	Arr            Iv // arrival on this subscription (publish, or dead-letter forward)
-	ArrSeq         int
-	Forwarded      bool // arrived by dead-letter forwarding
-	Revived        bool // made outstanding again by a seek and not delivered since
-	Wild           bool // model cannot predict this delivery any more
-	Lost           bool // a loss was already reported
-	LastDeliv      Iv   // instant of the last delivery
-	LeaseWhy       string
-	DoneAt         Iv
-	countedExpired bool
-	pruneChecked   bool
-	SeenAt         int // operation index at which the model last confirmed this record
+	Sub             *Sub
+	Msg             *Msg
+	AckID           string
+	State           DelState
+	Attempts        int
+	Lease           Iv // attempt_at lies in here
+	Exp             Iv // expires_at lies in here
+	ExpBeforeRevive Iv // what Exp was before the last seek revived the delivery
+	Arr             Iv // arrival on this subscription (publish, or dead-letter forward)
+	ArrSeq          int
+	Forwarded       bool // arrived by dead-letter forwarding
+	Revived         bool // made outstanding again by a seek and not delivered since
+	Wild            bool // model cannot predict this delivery any more
+	Lost            bool // a loss was already reported
+	LastDeliv       Iv   // instant of the last delivery
+	LeaseWhy        string
+	DoneAt          Iv
+	countedExpired  bool
+	pruneChecked    bool
+	SeenAt          int // operation index at which the model last confirmed this record
 }
 
 func (d *Del) String() string {
